@@ -74,7 +74,7 @@ def run_p1(files, lang, tag, root_name="proj"):
 # =====================================================================================================================
 # rename-pair comparison (second clause)
 # =====================================================================================================================
-def compare_twins(lang, vA, rowsA, vB, rowsB, renamed_lines, old, new, renamed_fields=(), skip_stmts=(), cross=None):
+def compare_twins(lang, vA, rowsA, vB, rowsB, renamed_lines, old, new, renamed_fields=(), skip_stmts=(), cross=None, strip=""):
     """Position-wise comparison of the P1 symbol tables of a program and its alpha-renamed twin.
     renamed_lines: {0-based line} of the renamed occurrences (one occurrence of a name per line); renamed_fields: field names of
     class-body reads `uN = name` (their GIR rows carry the class statement's line); skip_stmts: statements of occurrences that
@@ -107,6 +107,8 @@ def compare_twins(lang, vA, rowsA, vB, rowsB, renamed_lines, old, new, renamed_f
                 dr = view.by_id[sym]
                 blk = view.norm_block(sym)
                 dn = B.UnitView.decl_name(dr)
+                if strip and isinstance(dn, str) and dn.startswith(strip):
+                    dn = dn[len(strip):]
                 tgt = ("decl", pos.get(blk, 0) if blk else 0, dr.get("operation"), old if dn == new else dn)
             elif sym is None or sym < 0:
                 tgt = ("unresolved",)
@@ -121,7 +123,8 @@ def compare_twins(lang, vA, rowsA, vB, rowsB, renamed_lines, old, new, renamed_f
             line = row.get("start_row")
             ren = (line is not None and int(line) in renamed_lines and row.get("operation") != "field_write") or \
                 (row.get("operation") == "field_write" and row.get("field") in renamed_fields)
-            out.append((pos.get(sid), r["name"], tgt, None if line is None else int(line), ren, sid in skip_stmts))
+            nm_ = r["name"][len(strip):] if strip and r["name"].startswith(strip) else r["name"]
+            out.append((pos.get(sid), nm_, tgt, None if line is None else int(line), ren, sid in skip_stmts))
         return out
     ta, tb = table(rowsA, posA, vA), table(rowsB, posB, vB)
     if len(ta) != len(tb):
@@ -135,7 +138,8 @@ def compare_twins(lang, vA, rowsA, vB, rowsB, renamed_lines, old, new, renamed_f
         if y[1] != want:
             return f"rename:{lang}:s2space-symbol-name", f"after renaming {old}->{new} the symbol at statement #{x[0]} is called {y[1]!r}, expected {want!r}", len(ta)
         if x[2] != y[2]:
-            return (f"rename:{lang}:s2space-symbol_id",
+            kind = lambda t: t[2] if t[0] in ("decl", "decl-in") else t[0]
+            return (f"rename:{lang}:s2space-symbol_id({kind(x[2])}->{kind(y[2])})",
                     f"renaming {old}->{new} changed the binding of {x[1]!r} at statement #{x[0]} (line {x[3]}): {x[2]} -> {y[2]}", len(ta))
     return None, "", len(ta)
 
@@ -252,16 +256,27 @@ def py_expected_ids(view, meta, owner_sid, name):
     return sorted(int(r["stmt_id"]) for r in view.decl_rows(name) if view.owner_scope(int(r["stmt_id"])) == og), og
 
 
-def py_signature(lang, csite, cdecl, what):
+def py_signature(lang, csite, cdecl, what, chosen_left=""):
     """Mechanism signature of one failing occurrence. Three root causes seen on the pinned tree get ONE signature each (the
     components that do not matter for the cause are written `*`); everything else keeps the full three-part form."""
     if "(declaration-left-in-catch_clause-body)" in cdecl:
         return f"{lang}:*->declaration-assigned-in-except-block(declaration-left-in-catch_clause-body):not-bound-to-it"
+    if chosen_left == "(declaration-left-in-catch_clause-body)":
+        return f"{lang}:*->*:bound-to-declaration-left-in-catch_clause-body"
     if what == "enclosing-class-member":
         return f"{lang}:scope-nested-in-class->*:bound-to-enclosing-class-member"
     if "(global-stmt" in csite and cdecl == "module-declaration" and what == "enclosing-function-declaration":
         return f"{lang}:function-body(global-stmt)->module-declaration:bound-to-enclosing-function-declaration"
     return f"{lang}:{csite}->{cdecl}:bound-to-{what}"
+
+
+def chosen_left(view, sym_id):
+    """'(declaration-left-in-<op>-<col>)' when the declaration row lian chose was never hoisted out of a nested block."""
+    from lib.monitors import binding as B
+    r = view.by_id.get(sym_id)
+    if r is None or r.get("operation") != "variable_decl":
+        return ""
+    return B.left_in_block(view, [sym_id], view.owner_scope(sym_id))
 
 
 def judge_py_program(prog, view, s2, lang="python"):
@@ -311,7 +326,7 @@ def judge_py_program(prog, view, s2, lang="python"):
                 res["fails"].append((f"{lang}:{o['csite']}->none:no-symbol-row", f"no s2space row for {where}", tag))
             elif bad:
                 what = B.describe_choice(view, sid, bad)
-                res["fails"].append((py_signature(lang, o["csite"], "none", what),
+                res["fails"].append((py_signature(lang, o["csite"], "none", what, chosen_left(view, bad[0][0])),
                                      f"{where} has no visible declaration (NameError at run time) but lian binds it to statement "
                                      f"{bad[0][0]} ({what}: {view.by_id.get(bad[0][0], {}).get('operation')} at line "
                                      f"{B._int(view.by_id.get(bad[0][0], {}).get('start_row', -2)) + 1})", tag))
@@ -328,7 +343,7 @@ def judge_py_program(prog, view, s2, lang="python"):
             res["fails"].append((f"{lang}:{o['csite']}->{cdecl}:no-symbol-row", f"no s2space row for {where}", tag))
         elif wrong:
             what = B.describe_choice(view, sid, wrong)
-            res["fails"].append((py_signature(lang, o["csite"], cdecl, what),
+            res["fails"].append((py_signature(lang, o["csite"], cdecl, what, chosen_left(view, wrong[0][0])),
                                  f"{where} is bound by the language to the {o['decl']} of scope "
                                  f"{meta['scopes'][str(o['owner'])]['name']} (declaration rows {exp}); lian recorded symbol_id {wrong[0][0]} ({what})", tag))
     return res
@@ -673,15 +688,11 @@ def js_expected_ids(view, meta, var):
 
 
 def js_signature(lang, meta, view, o, use_sid, cdecl, what, chosen_row):
-    """Mechanism signature of one failing JavaScript occurrence: five root causes seen on the pinned tree get one signature each."""
-    lexical = any(k in cdecl for k in ("-let",))
-    if "(no-declaration-row)" in cdecl and lexical:
-        return f"{lang}:*->block-scoped-declaration(no-declaration-row):not-bound-to-it"
-    if "-var" in cdecl and "(no-declaration-row)" in cdecl:
-        return f"{lang}:*->var(no-declaration-row):not-bound-to-it"
-    if "-var(declared-in-nested-block)" in cdecl:
-        return f"{lang}:*->var(declared-in-nested-block):not-bound-to-it"
-    if chosen_row is not None and chosen_row.get("operation") in ("variable_decl", "class_decl"):
+    """Mechanism signature of one failing JavaScript occurrence: the root causes seen on the pinned tree get one signature each
+    (components that do not matter for the cause are written `*`); everything else keeps the full three-part form."""
+    is_decl_row = chosen_row is not None and chosen_row.get("operation") in ("variable_decl", "class_decl")
+    if is_decl_row:
+        # lian's JavaScript frontend dissolves a bare `{ ... }`: what it declares lands in the enclosing block
         line = chosen_row.get("start_row")
         md = [d["scope"] for d in meta["decls"].values() if line is not None and d["line"] == int(line) and d["name"] == chosen_row.get("name")]
         md += [sc["parent"] for sc in meta["scopes"].values() if line is not None and sc.get("line") == int(line)
@@ -690,6 +701,22 @@ def js_signature(lang, meta, view, o, use_sid, cdecl, what, chosen_row):
             dsc = meta["scopes"][str(md[0])]
             if dsc["kind"] == "block" and dsc.get("style") == "bare" and str(md[0]) not in js_scope_chain(meta, o["scope"]):
                 return f"{lang}:*->*:bound-to-declaration-of-dissolved-bare-block"
+    v = o.get("var")
+    if v and v[0] in ("decl", "func", "class"):
+        dsid = meta["decls"][str(v[1])]["scope"] if v[0] == "decl" else meta["scopes"][str(v[1])]["parent"]
+        dsc = meta["scopes"][str(dsid)]
+        if dsc["kind"] == "block" and dsc.get("style") == "bare" and not (v[0] == "decl" and meta["decls"][str(v[1])]["kind"] == "var"):
+            # ... where it collides with (or is deduplicated against) what that block declares under the same name
+            return f"{lang}:*->declaration-in-dissolved-bare-block:not-bound-to-it"
+    if cdecl.startswith("implicit-global") and "(no-declaration-row)" in cdecl:
+        return f"{lang}:*->implicit-global(no-declaration-row):not-bound-to-it"
+    if "(no-declaration-row)" in cdecl and "-let" in cdecl:
+        return f"{lang}:*->block-scoped-declaration(no-declaration-row):not-bound-to-it"
+    if "-var" in cdecl and "(no-declaration-row)" in cdecl:
+        return f"{lang}:*->var(no-declaration-row):not-bound-to-it"
+    if "-var(declared-in-nested-block)" in cdecl:
+        return f"{lang}:*->var(declared-in-nested-block):not-bound-to-it"
+    if is_decl_row:
         cid = int(chosen_row["stmt_id"])
         if "implicit-global-declaration" in what:
             return f"{lang}:*->*:bound-to-implicit-global-declaration"
@@ -918,7 +945,7 @@ def proj_prepare(files, meta, run):
                     cause = "re-exported-name"
                 elif tgt[0] == "decl" and meta["consts"][tgt[1]]["file"].endswith("__init__.py"):
                     cause = "declared-in-package-__init__"
-                elif any(j is not i and j["file"] == path and j["scope"] == owner and j["form"] != "wildcard"
+                elif any(j is not i and j["file"] == path and j["scope"] == owner
                          and any((j.get("target") or {}).get(b) == t for b in j["binds"]) for j in meta["imports"].values()):
                     cause = "target-also-imported-under-another-name"
                 causes[(path, owner, name)] = cause
@@ -1212,6 +1239,57 @@ def batch_py_project(job):
     return res
 
 
+# =====================================================================================================================
+# Java / Go / C / PHP / TypeScript: alpha-renaming relation only
+# =====================================================================================================================
+def batch_template(job):
+    from lib import gen_bind
+    lang, idx = job["lang"], job["index"]
+    res = new_result(lang)
+    sc = common.scratch()
+    if job.get("replay"):
+        t = job["replay"]["template"]
+        todo = [job["replay"]["placeholder"]]
+    else:
+        t = gen_bind.TEMPLATES[lang][idx]
+        todo = list(t["renames"])
+    base, lines = gen_bind.render_template(t)
+    o0 = gen_bind.run_template(lang, t, base, os.path.join(sc, f"c05tc_{lang}_{idx}_base"))
+    views, s2v, s2rows, unit_of, _ = run_p1({t["file"]: base}, lang, f"t_{lang}_{idx}_base")
+    vA = views.get(t["file"])
+    if vA is None or not vA.by_id:
+        res["fails"].append((f"{lang}:no-gir-for-unit", "the lang phase emitted no GIR for a template program",
+                             {"kind": "tmpl", "lang": lang, "template": t, "placeholder": todo[0] if todo else None}))
+        return res
+    res["programs"] += 1
+    res["s2rows"] += s2v[t["file"]].n
+    res["samples"].append({"lang": lang, "program": base, "renamed placeholders": todo})
+    for k in todo:
+        twin, _ = gen_bind.render_template(t, k)
+        if o0 is not None:
+            o1 = gen_bind.run_template(lang, t, twin, os.path.join(sc, f"c05tc_{lang}_{idx}_{k}"))
+            if o1 != o0 or str(o0).startswith("!toolchain-error"):
+                res["twin_rejected"] += 1
+                res["faults"].append(f"{lang} template {t['name']}: the toolchain does not confirm that renaming {{{k}}} preserves behaviour ({o0!r} vs {o1!r})")
+                continue
+            res["validated"] = res.get("validated", 0) + 1
+        tv, ts2v, ts2rows, _, _ = run_p1({t["file"]: twin}, lang, f"t_{lang}_{idx}_{k}")
+        vB = tv.get(t["file"])
+        case = {"kind": "tmpl", "lang": lang, "template": t, "placeholder": k, "files": {t["file"]: base}, "twin": {"text": twin}}
+        if vB is None:
+            res["fails"].append((f"{lang}:no-gir-for-unit", "the lang phase emitted no GIR for the renamed twin", case))
+            continue
+        old = t["vars"][k]
+        sig, text, n = compare_twins(lang, vA, s2rows.get(t["file"], []), vB, ts2rows.get(t["file"], []), set(lines.get(k, [])),
+                                     old, old + "_r", strip=t.get("sigil", ""))
+        res["rename_pairs"] += 1
+        res["rename_rows"] += n
+        res["pairs"] = sorted(set(map(tuple, res["pairs"])) | {(f"template:{t['name']}", f"placeholder:{k}")})
+        if sig:
+            res["fails"].append((sig, f"{lang} template {t['name']}, placeholder {{{k}}}: {text}", case))
+    return res
+
+
 def meta_line(meta, key):
     return meta["occ"][key]["line"]
 
@@ -1250,7 +1328,7 @@ def finish_program(res, lang, p, view, s2, case, judge):
                                "occurrences_judged": r["judged"]})
 
 
-JOBS = {"py1": batch_py_single, "js1": batch_js_single, "pyproj": batch_py_project}
+JOBS = {"py1": batch_py_single, "js1": batch_js_single, "pyproj": batch_py_project, "tmpl": batch_template}
 
 
 def run_job(job):
@@ -1266,19 +1344,24 @@ def main():
         "closures/catch/loops; multi-file Python imports); distinct_nontrivial = distinct (use-site scope kind -> declaration kind) "
         "pairs judged against the runtime-revealed binding"))
     thorough = chk.tier == "thorough"
+    chk.max_samples = 8
     rng = random.Random(chk.seed)
     rp = os.environ.get("VERIF_REPLAY")
     jobs = []
     if rp:
         with open(rp) as f:
             case = json.load(f)["case"]
-        jobs.append({"kind": case["kind"], "tag": "replay", "replay": case})
+        jobs.append({"kind": case["kind"], "tag": "replay", "replay": case, "lang": case.get("lang"), "index": 0})
     else:
         base = rng.randrange(1 << 28)
         npy = 100 if not thorough else 2600
         for k in range(0, npy, PY_BATCH):
             jobs.append({"kind": "py1", "tag": f"py{k // PY_BATCH}", "seeds": [base + i for i in range(k, min(npy, k + PY_BATCH))],
                          "rseed": base + k})
+        from lib import gen_bind as _gb
+        for lang_, ts_ in _gb.TEMPLATES.items():
+            for i_ in range(len(ts_)):
+                jobs.append({"kind": "tmpl", "tag": f"t_{lang_}_{i_}", "lang": lang_, "index": i_})
         nproj = 50 if not thorough else 800
         for k in range(0, nproj, 4):
             jobs.append({"kind": "pyproj", "tag": f"pp{k // 4}", "seeds": [base + 104729 + i for i in range(k, min(nproj, k + 4))], "rseed": base + k})
@@ -1307,6 +1390,8 @@ def main():
         chk.count(f"{lang}: rename pairs compared", v["rename_pairs"])
         chk.count(f"{lang}: s2space symbol rows compared across rename pairs", v["rename_rows"])
         chk.count(f"{lang}: s2space symbol rows read", v["s2rows"])
+        if "validated" in v:
+            chk.count(f"{lang}: rename twins confirmed behaviour-preserving by the language's own toolchain", v["validated"])
         if "imported" in v:
             chk.count(f"{lang}: occurrences bound to a declaration in another file (imported symbols and modules)", v["imported"])
         chk.count("generated programs discarded (not total under the runtime)", v["discarded"])
@@ -1328,17 +1413,42 @@ def main():
     chk.extra["scope_kind_to_declaration_kind_pairs"] = sorted("%s: %s -> %s" % p for p in pairs)
     chk.count("distinct (language, use-site scope kind, declaration kind) pairs judged", len(pairs))
     if not rp:
-        chk.require("python: occurrences judged (executed uses and call sites)", 3000 if not thorough else 60000)
-        chk.require("python: uses with no visible declaration judged (NameError/ReferenceError at run time)", 300)
-        chk.require("python: rename pairs compared", 50)
-        chk.require("distinct (language, use-site scope kind, declaration kind) pairs judged", 40)
+        k = 1 if not thorough else 18
+        J = "occurrences judged (executed uses and call sites)"
+        U = "uses with no visible declaration judged (NameError/ReferenceError at run time)"
+        chk.require(f"python: {J}", 3000 * k)
+        chk.require(f"python: {U}", 300 * k)
+        chk.require("python: rename pairs compared", 60 * k)
+        chk.require(f"javascript: {J}", 2000 * k)
+        chk.require(f"javascript: {U}", 200 * k)
+        chk.require("javascript: rename pairs compared", 30 * k)
+        chk.require(f"python-project: {J}", 600 * (k if k == 1 else 12))
+        chk.require("python-project: occurrences bound to a declaration in another file (imported symbols and modules)", 250 * (k if k == 1 else 12))
+        chk.require(f"python-project: {U}", 100 * (k if k == 1 else 12))
+        chk.require("python-project: rename pairs compared", 10 * (k if k == 1 else 12))
+        for lang_ in ("java", "go", "c", "php", "typescript"):
+            chk.require(f"{lang_}: rename pairs compared", 3)
+        for lang_ in ("java", "c", "typescript"):
+            chk.require(f"{lang_}: rename twins confirmed behaviour-preserving by the language's own toolchain", 3)
+        chk.require("distinct (language, use-site scope kind, declaration kind) pairs judged", 150)
     else:
         chk.nontrivial_case("replay-a")
         chk.nontrivial_case("replay-b")
+    chk.extra["programs_per_language"] = {k[:-len(": programs analysed")]: v for k, v in chk.counters.items() if k.endswith(": programs analysed")}
     chk.assumptions += [
         "an occurrence is judged only when executed and when the runtime value identifies exactly one declaration; for Python the "
         "symtable classification must agree with it",
         "comparison is at the level 'which scope's declaration' (lian hoists one declaration row per scope and name), not which assignment",
+        "Python class-body reads are written as field assignments `uN = name` (lian's frontend keeps only assignments and definitions of a "
+        "class body); dotted plain imports (`import a.b`) are not generated (lian rewrites them textually, a C12 matter)",
+        "JavaScript programs run in sloppy mode in a fresh vm context; a keyword-less write is bound to whatever its probe read (emitted "
+        "right before it) is bound to, or creates an implicit global when that read throws ReferenceError",
+        "multi-file JavaScript is not exercised: the frontend resolves neither ES-module imports nor require() (every imported name is "
+        "bound to its own import statement), so there is no cross-file binding to judge",
+        "Java/Go/C/PHP/TypeScript are judged by the alpha-renaming relation only, on hand-written shadowing templates; Java, C and "
+        "TypeScript twins are confirmed behaviour-preserving by javac+java / gcc / node, Go and PHP twins are not (no toolchain here)",
+        "the alpha-renaming comparison identifies a declaration by (position of its enclosing block, operation, declared name) and skips "
+        "statements whose binding already failed the first clause (reported there)",
     ]
     sys.exit(chk.finish())
 
